@@ -257,6 +257,8 @@ _LINES = {
 }
 PROPS["C14"]["reach_shards"] = [0, 1, 2]
 PROPS["C19"]["reach_shards"] = [0, 1, 2, 3]
+PROPS["C19"]["require_counters"]["quick"]["reduction_boundary_steps_checked"] = 2 * 70000
+PROPS["C19"]["require_counters"]["thorough"]["reduction_boundary_steps_checked"] = 70000
 _EXH = {"C01": (12, 15), "C02": (11, 15), "C03": (13, 16), "C04": (12, 15), "C07": (8, 11), "C08": (11, 13), "C10": (12, 15), "C11": (12, 15)}
 for _p, (_q, _t) in _EXH.items():
     PROPS[_p]["exhaustive_subspaces"] = {"quick": ["all 2^n received subsets of every listed configuration with n <= %d (the other dimensions are sampled per subset)" % _q],
